@@ -25,6 +25,7 @@ def main():
     also = []
     tier = "quick"
     src = "/tmp/wt-%s/OUT" % pid
+    demo_args = {}
     i = 1
     while i < len(args):
         if args[i] == "--only":
@@ -36,6 +37,9 @@ def main():
             also = args[i + 1].split(",")
         elif args[i] == "--tier":
             tier = args[i + 1]
+        elif args[i] == "--demo-args":
+            k, v = args[i + 1].split("=", 1)
+            demo_args[k] = v
         elif args[i] == "--src":
             src = args[i + 1]
         i += 2
@@ -51,7 +55,7 @@ def main():
         if not crate and m:
             crate = m.group(1)
         cmd = [VERIF + "/selftest/verify_mutant.sh", d] + ([crate] if crate else [])
-        v = subprocess.run(cmd, stdout=subprocess.PIPE, stderr=subprocess.STDOUT, text=True)
+        v = subprocess.run(cmd, stdout=subprocess.PIPE, stderr=subprocess.STDOUT, text=True, env=dict(os.environ, DEMO_CARGO_ARGS=demo_args.get(name, "")))
         vlines = [l for l in v.stdout.splitlines() if re.match(r"^(demo |patch applies|existing suite|VERIFIED|NOT-VERIFIED|no demo)", l)]
         verified = any(l.startswith("VERIFIED") for l in vlines)
         print("##### %s %s  %s" % (pid, name, "VERIFIED" if verified else "NOT-VERIFIED"))
@@ -88,7 +92,7 @@ def main():
                 "summary": first,
                 "needs_to_manifest": "see README.md (written by the sub-agent)",
                 "confirmed": {l.split(":")[0]: l.split(":", 1)[1].strip() for l in vlines if ":" in l and not l.startswith(("VERIFIED", "NOT-VERIFIED"))},
-                "commands": ["selftest/verify_mutant.sh <dir>%s" % ((" " + crate) if crate else ""), "selftest/run_mutant.sh patch.diff %s" % " ".join([pid] + also)],
+                "commands": [("DEMO_CARGO_ARGS='%s' " % demo_args[name] if demo_args.get(name) else "") + "selftest/verify_mutant.sh <dir>%s" % ((" " + crate) if crate else ""), "selftest/run_mutant.sh patch.diff %s" % " ".join([pid] + also)],
                 "checks": {k: {"tier": tier, "detected": c["exit"] == 1, "signatures": c["signatures"][:6]} for k, c in caught.items()},
             }
             old = os.path.join(dst, "meta.json")
